@@ -1,9 +1,9 @@
 #!/bin/sh
 # usage: tools/eval_seedb.sh <Cxx> [tier] [notests]  -- round-b variant of eval_seed.sh (worktree /tmp/seedb_<Cxx>, output /tmp/seed_out/<Cxx>b)
-id=$1; tier=${2:-quick}; wt=/tmp/seedb_$id; out=/tmp/seed_out/${id}b
+id=$1; tier=${2:-quick}; suf=${SUF:-b}; wt=/tmp/seed${suf}_$id; out=/tmp/seed_out/${id}${suf}
 cd $wt || exit 9
 git checkout -q -- . && git clean -fdq
-echo "--- ${id}b: demo on unchanged tree"; timeout 300 /venv/bin/python -W ignore $out/demo.py $wt > $out/demo_unchanged.log 2>&1; echo "exit=$?"; tail -1 $out/demo_unchanged.log | cut -c1-200
+echo "--- ${id}${suf}: demo on unchanged tree"; timeout 300 /venv/bin/python -W ignore $out/demo.py $wt > $out/demo_unchanged.log 2>&1; echo "exit=$?"; tail -1 $out/demo_unchanged.log | cut -c1-200
 git apply $out/patch.diff || { echo "PATCH DOES NOT APPLY"; exit 8; }
 git diff > $out/patch.confirmed.diff; git diff --stat | tail -1
 echo "--- demo on changed tree"; timeout 300 /venv/bin/python -W ignore $out/demo.py $wt > $out/demo_changed.log 2>&1; echo "exit=$?"; tail -2 $out/demo_changed.log | cut -c1-300
